@@ -213,7 +213,7 @@ example := seek_then_position exFile toyUnc toyUnc_ok (fresh 0 10) 6 1 (by decid
 
 `kw = true` is the code as it is (data-block cache keyed by location *and* size word, 36fa767); `kw = false` the code
 before that commit, for which `sw`/`ConsIno` describe the images on which it was sound (`ConsIno` is *no condition
-at all* when `kw = true`).  `sfix` selects the stream code: `false` as it is in /repo (D33, see
+at all* when `kw = true`).  `sfix` selects the stream code: `false` as it was in /repo before 8447a61 (D33, see
 `Sqfs/Witness/C10.lean`), `true` with `fixes/C10-stream-frag-fail.patch`; the theorems below hold for both, because
 D33 lives in the stream object, not in the reader's caches.  A history (`DataReader.OpX`, run by `runX`; the read-only
 `Op`/`run` that C19 uses embed into it: `DataReader.runX_embed`) is any sequence of
